@@ -269,4 +269,31 @@ PROPS = {
                      "load-configuration sources ConfigurationRevision / Rollback / Url have no public constructor: "
                      "modelled, not exercised"],
     ),
+    "C05": dict(
+        thm=["Bgpfu.Thm.C05"],
+        ops=[("sched", ["only-nodrop"])],
+        level_text="Small-step model of rpc()/recv() at .await granularity (receive mutex with FIFO hand-off, request "
+                   "map, transport inbox, gate for send back-pressure). Theorems over every reachable state (arbitrary "
+                   "action lists): fresh ids, own reply only, no reply delivered twice, unknown ids never delivered, "
+                   "receive lock never leaked, completion under a responsive server. The real Session is polled by hand "
+                   "(no-op waker) along generated schedules and compared with the model state by state.",
+        level_note="Sound at .await granularity because all shared session state is behind tokio async mutexes (argued in "
+                   "Model/Session.lean, not proved); tokio Mutex FIFO hand-off is an assumption exercised by the run. "
+                   "Thread-level preemption inside tokio and waker delivery are not modelled.",
+        rule="schedules over {send ok/failing builder, gate, poll i, deliver (own id / unknown id / no id / phase-2 "
+             "garbage / duplicate), close, fair rounds}: the C18 drop windows, all reply permutations for 3 and 4 "
+             "pipelined requests, random schedules up to 20 actions with up to 5 requests; distinct by action list",
+        trusted=["tokio::sync::Mutex is FIFO with hand-off; dropping a queued or handed waiter passes the lock on"],
+    ),
+    "C18": dict(
+        thm=["Bgpfu.Thm.C18"],
+        ops=[("sched", ["only-drop"])],
+        level_text="Same session model with drop actions at every suspension point of a reply future: the receive lock "
+                   "is never left with a dropped future, a drop never loses a reply in the current code, survivors "
+                   "complete; counter-example theorem for the pinned snapshot (reply lost in the requests-lock window).",
+        level_note="As C05. Drop points are the model's suspension points (queued for rx, handed rx, reading); the "
+                   "transport's recv is assumed cancel-safe (true for the three transports: buffers live in the handle).",
+        rule="as C05, restricted to schedules containing at least one drop",
+        trusted=["RecvHandle::recv is cancel-safe"],
+    ),
 }
